@@ -4,6 +4,7 @@ import Flowjaxv.Proofs.Planar
 import Flowjaxv.Proofs.Triangular
 import Flowjaxv.Proofs.LogDet
 import Flowjaxv.Proofs.NetLawful
+import Flowjaxv.Proofs.Flows
 /-!
 # C01 — every bijection is invertible: inverse undoes transform, both ways
 
@@ -394,5 +395,174 @@ theorem bnaf_instance (y : List ℝ) (hy : y.length = 2) :
 
 end NetworkBijections
 /-! ## ===== END network bijections ===== -/
+
+/-! ## ===== BEGIN premade flows (`flowjax/flows.py`): whole flows, every number of layers =====
+
+The objects are GENERATED from `flowjax/flows.py` on every run (`Gen/Flows.lean`: `_add_default_permute`,
+`_affine_with_min_scale`, the `make_layer` closures, `Invert(Scan(layers)) if invert else Scan(layers)`); `Model/Flows.lean`
+only names the compositions.  `key i = (parameters of layer i, permutation of layer i)` for `i < n = flow_layers`
+(the unstacked `Scan` layers; a PRNG key is modelled by what it determines).  `FlowsPf.Vec dim` = the vectors of length
+`dim`.  Every theorem is for EVERY `n`, every `dim`, every value of the layer parameters, both values of `invert`,
+conditional or not (the condition is the second argument of the conditioner / parameter function).  Helpers in
+`Proofs/Flows.lean`; real flows built by the factories are compared with these definitions by `tools/props/flows.py`. -/
+section PremadeFlows
+open Masks Flows FlowsPf
+
+/-- **`_add_default_permute` keeps a bijection lawful** — all three branches of the generated function: `dim == 1` nothing
+is added, `dim == 2` a `Flip`, otherwise `Permute(jr.permutation(key, arange(dim)))` for whatever permutation of
+`0 … dim-1` the key yields. -/
+theorem add_default_permute_lawful {b : VBij ℝ} {dim : ℕ} {key : List ℕ} (hb : b.Lawful (Vec dim) (Vec dim))
+    (hk : PermKeyOK dim key) : (add_default_permute b dim key).Lawful (Vec dim) (Vec dim) :=
+  FlowsPf.add_default_permute_lawful hb hk
+
+/-- **`_affine_with_min_scale`**: for EVERY raw value of the trainable entry the unwrapped scale is
+`softplus(raw) + min_scale`: strictly above `min_scale`, hence `> 0` whenever `min_scale ≥ 0`; as constructed it is 1;
+the signature's default is `min_scale = 0.01`. -/
+theorem affine_with_min_scale_bound (m raw : ℝ) :
+    ({ (affine_with_min_scale m).scale with arr := raw } : Params.BijectionReparam ℝ).unwrap = Real.log (1 + Real.exp raw) + m ∧
+    m < ({ (affine_with_min_scale m).scale with arr := raw } : Params.BijectionReparam ℝ).unwrap ∧
+    (0 ≤ m → 0 < ({ (affine_with_min_scale m).scale with arr := raw } : Params.BijectionReparam ℝ).unwrap) :=
+  ⟨FlowsPf.affine_with_min_scale_scale m raw, (FlowsPf.affine_with_min_scale_bound m raw).1,
+   (FlowsPf.affine_with_min_scale_bound m raw).2⟩
+
+theorem affine_with_min_scale_init {m : ℝ} (hm : m < 1) : (affine_with_min_scale m).unwrap.scale = 1 ∧
+    (affine_with_min_scale.min_scale_default : ℝ) = 1 / 100 :=
+  ⟨FlowsPf.affine_with_min_scale_init hm, FlowsPf.min_scale_default_eq⟩
+
+/-- the transformer families the factories are used with are lawful `ℝ ↔ ℝ` for EVERY conditioner output row:
+`transformer=None` (`_affine_with_min_scale()`), plain `Affine()`, and `RationalQuadraticSpline(knots ≥ 1, interval lo < hi,
+min_derivative ≥ 0, softmax_adjust ≥ 0)` — the hypothesis `htf` of the flow theorems below is satisfiable. -/
+theorem transformer_families_lawful (ps : List ℝ) :
+    (defaultTransformer ps : Bij ℝ Unit ℝ).Lawful univ univ ∧
+    (∀ init, (affineFamily (affineDefault : AffineP ℝ) init ps).Lawful univ univ) ∧
+    (∀ cfg init, RqsCfgOK cfg init → (rqsFamily cfg init ps).Lawful univ univ) :=
+  ⟨defaultTransformer_lawful ps, fun init => plainAffine_lawful init ps, fun _ _ h => rqsFamily_lawful h ps⟩
+
+/-- **`coupling_flow_lawful`** — the bijection of `coupling_flow(key, base_dist, transformer, cond_dim, flow_layers=n, …,
+invert)`: `Scan` of `n` layers `Chain([Coupling(untransformed_dim = dim // 2), permutation])`, inverted iff `invert`.
+For every `n`, `dim`, every conditioner function of every layer (any network, weights, condition), every valid
+permutation per layer and every transformer family lawful `ℝ ↔ ℝ`: `inverse(transform x) = x`, `transform(inverse y) = y`
+on all of `ℝ^dim`, and the `…_and_log_det` points agree.  `dim = 1` (no permutation, nothing untransformed:
+`untransformed_dim = 0`; the real flow is a stack of constant / condition-dependent affine maps) is included.
+Guard `0 < dim`: for `base_dist.shape == (0,)` the real factories (coupling and MAF) construct and then EVERY method raises
+`ZeroDivisionError` (`jnp.reshape(params, (0, -1))`), whereas the total model returns `[]` — the statement is not claimed there. -/
+theorem coupling_flow_lawful (tf : List ℝ → Bij ℝ Unit ℝ) (htf : ∀ ps, (tf ps).Lawful univ univ) (dim : ℕ) (_hdim : 0 < dim)
+    (key : ℕ → (List ℝ → List ℝ) × List ℕ) (n : ℕ) (invert : Bool) (hperm : ∀ i < n, PermKeyOK dim (key i).2) :
+    (couplingFlowBij tf dim key n invert).Lawful (Vec dim) (Vec dim) :=
+  FlowsPf.coupling_flow_lawful tf htf dim key n invert hperm
+
+/-- … with `transformer=None`, the factory's default -/
+theorem coupling_flow_default_lawful (dim : ℕ) (_hdim : 0 < dim) (key : ℕ → (List ℝ → List ℝ) × List ℕ) (n : ℕ) (invert : Bool)
+    (hperm : ∀ i < n, PermKeyOK dim (key i).2) :
+    (couplingFlowBij defaultTransformer dim key n invert).Lawful (Vec dim) (Vec dim) :=
+  FlowsPf.coupling_flow_lawful _ defaultTransformer_lawful dim key n invert hperm
+
+/-- … with a rational-quadratic-spline transformer -/
+theorem coupling_flow_spline_lawful {cfg : RqsCfg ℝ} {init : List ℝ} (hcfg : RqsCfgOK cfg init) (dim : ℕ) (_hdim : 0 < dim)
+    (key : ℕ → (List ℝ → List ℝ) × List ℕ) (n : ℕ) (invert : Bool) (hperm : ∀ i < n, PermKeyOK dim (key i).2) :
+    (couplingFlowBij (rqsFamily cfg init) dim key n invert).Lawful (Vec dim) (Vec dim) :=
+  FlowsPf.coupling_flow_lawful _ (rqsFamily_lawful hcfg) dim key n invert hperm
+
+/-- **`maf_flow_lawful`** — `masked_autoregressive_flow`: every `n`, every well-shaped masked network per layer
+(`MafNet.WellShaped`, all weights), every valid permutation, both orientations. -/
+theorem maf_flow_lawful (tf : List ℝ → Bij ℝ Unit ℝ) (htf : ∀ ps, (tf ps).Lawful univ univ) (dim : ℕ) (_hdim : 0 < dim)
+    (key : ℕ → MafNet ℝ × List ℕ) (n : ℕ) (invert : Bool)
+    (hnet : ∀ i < n, (key i).1.WellShaped ∧ (key i).1.dim = dim) (hperm : ∀ i < n, PermKeyOK dim (key i).2) :
+    (mafFlowBij tf dim key n invert).Lawful (Vec dim) (Vec dim) :=
+  FlowsPf.maf_flow_lawful tf htf dim key n invert hnet hperm
+
+/-- **`planar_flow_lawful`** — `planar_flow(…, negative_slope=s)` with `0 < s ≤ 1`: every `n`, every parameter function
+`condition ↦ (w, u, b)` per layer with `w ≠ 0` (`PlanarOK`; the stored vector when unconditional, the conditioner MLP's
+output otherwise), every valid permutation, both orientations.  (`s > 1`: known finding `planar_steep`.) -/
+theorem planar_flow_lawful (dim : ℕ) {s : ℝ} (hs0 : 0 < s) (hs1 : s ≤ 1)
+    (key : ℕ → (List ℝ → List ℝ) × List ℕ) (n : ℕ) (invert : Bool)
+    (hpar : ∀ i < n, PlanarOK dim (key i).1) (hperm : ∀ i < n, PermKeyOK dim (key i).2) :
+    (planarFlowBij dim s key n invert).Lawful (Vec dim) (Vec dim) :=
+  FlowsPf.planar_flow_lawful dim hs0 hs1 key n invert hpar hperm
+
+/-- **tanh planar flow** (`negative_slope=None`): only the forward methods exist (`inverse*` raise `NotImplementedError`,
+so with the default `invert=True` `log_prob` works and `sample` raises).  For every `n`: the forward pass stays in `ℝ^dim`
+and `transform_and_log_det` returns the point `transform` returns. -/
+theorem planar_tanh_flow_forward (dim : ℕ) (key : ℕ → (List ℝ → List ℝ) × List ℕ) (n : ℕ)
+    (hpar : ∀ i < n, PlanarOK dim (key i).1) (hperm : ∀ i < n, PermKeyOK dim (key i).2) :
+    (∀ x ∈ Vec dim, ∀ c, planarTanhFlowFwd dim key n x c ∈ Vec dim) ∧
+    (∀ x c, (planarTanhFlowFwdLd dim key n x c).1 = planarTanhFlowFwd dim key n x c) :=
+  FlowsPf.planar_tanh_flow_forward dim key n hpar hperm
+
+/-- **`bnaf_flow_forward_lawful`** — `block_neural_autoregressive_flow`, the analytic direction, NO hypothesis on the
+inverter: for every `n`, all raw weights (`BnafOK`), every strictly increasing activation, `Scan(layers).transform` maps
+`ℝ^dim` into itself, is INJECTIVE and `transform_and_log_det` returns the same point. -/
+theorem bnaf_flow_forward_lawful (dim depth bd : ℕ) (act : ℝ → ℝ) (hact : StrictMono act)
+    (inverter : (List ℝ → List ℝ → List ℝ) → List ℝ → List ℝ → List ℝ)
+    (key : ℕ → BnafNet ℝ × List ℕ) (n : ℕ)
+    (hnet : ∀ i < n, NetLawful.BnafOK dim depth bd (key i).1.layers (key i).1.condLinear)
+    (hperm : ∀ i < n, PermKeyOK dim (key i).2) :
+    FwdLawful (bnafFlowBij dim act inverter key n false) (Vec dim) :=
+  FlowsPf.bnaf_flow_forward_lawful dim depth bd act hact inverter key n hnet hperm
+
+/-- … and with an inverter that returns exact preimages (what `bnaf_invertible` provides for an exact scalar solver and a
+surjective activation; the bisection inverter does so up to the tolerance of C10) the whole BNAF flow is lawful in both
+orientations. -/
+theorem bnaf_flow_lawful (dim depth bd : ℕ) (act : ℝ → ℝ) (hact : StrictMono act)
+    (inverter : (List ℝ → List ℝ → List ℝ) → List ℝ → List ℝ → List ℝ)
+    (key : ℕ → BnafNet ℝ × List ℕ) (n : ℕ) (invert : Bool)
+    (hnet : ∀ i < n, NetLawful.BnafOK dim depth bd (key i).1.layers (key i).1.condLinear ∧
+      InverterExact dim inverter (bnafTransform act (key i).1.layers (key i).1.condLinear))
+    (hperm : ∀ i < n, PermKeyOK dim (key i).2) :
+    (bnafFlowBij dim act inverter key n invert).Lawful (Vec dim) (Vec dim) :=
+  FlowsPf.bnaf_flow_lawful dim depth bd act hact inverter key n invert hnet hperm
+
+/-- **`tri_spline_flow_lawful`** — `triangular_spline_flow`: every `n`; per layer `dim` well-formed splines (every knot
+position / derivative the constructor can produce: `Rqs.RqsWF`), every lower-triangular matrix with non-zero diagonal and
+every `loc` (`TriPf.TriWF`; weight normalisation keeps the triangle and the positive diagonal), every linear conditioning
+matrix, `tanh_max_val > 0`, every valid permutation; both orientations.  (`make_layer` is the hand model
+`Flows.triSplineCore`; the factory body and `_add_default_permute` are generated.) -/
+theorem tri_spline_flow_lawful (dim : ℕ) (m : ℝ) (key : ℕ → TriSplineNet ℝ × List ℕ) (n : ℕ) (invert : Bool)
+    (hnet : ∀ i < n, TriSplineOK dim m (key i).1) (hperm : ∀ i < n, PermKeyOK dim (key i).2) :
+    (triSplineFlowBij dim m key n invert).Lawful (Vec dim) (Vec dim) :=
+  FlowsPf.tri_spline_flow_lawful dim m key n invert hnet hperm
+
+/-! ### non-vacuity -/
+
+/-- a 3-layer conditional triangular-spline flow on `ℝ²` (`FlowsPf.triSplineNet` in every layer, `tanh_max_val = 3`) -/
+theorem tri_spline_flow_instance :
+    (triSplineFlowBij 2 3 (fun _ => (triSplineNet, [])) 3 true).Lawful (Vec 2) (Vec 2) :=
+  tri_spline_flow_lawful 2 3 _ 3 true (fun _ _ => triSplineNet_ok) (fun _ _ _ h2 => absurd rfl h2)
+
+/-- a 2-layer coupling flow on `ℝ³` (`FlowsPf.couplingKeys`: conditioners `a ↦ (a²+1, a−2, 3, a)` and a constant one,
+permutations `[2,0,1]` and `[1,2,0]`), default transformer, `invert=True`, and the same with a spline transformer with
+2 knots on `[-3, 3]` -/
+theorem coupling_flow_instance :
+    (couplingFlowBij defaultTransformer 3 couplingKeys 2 true).Lawful (Vec 3) (Vec 3) ∧
+    (couplingFlowBij (rqsFamily ⟨2, (-3, 3), 1 / 100, 1 / 1000⟩ [0, 0, 0, 0, 0, 0, 0, 0]) 3 couplingKeys 2 false).Lawful
+      (Vec 3) (Vec 3) :=
+  ⟨coupling_flow_default_lawful 3 (by norm_num) couplingKeys 2 true couplingKeys_perm,
+   coupling_flow_spline_lawful ⟨by norm_num, rfl, by norm_num, by norm_num, by norm_num⟩ 3 (by norm_num) couplingKeys 2 false
+     couplingKeys_perm⟩
+
+/-- a 3-layer MAF on `ℝ²` (every layer `MasksPf.mafExample`, `Flip` between layers) and a 2-layer planar flow on `ℝ²`
+(`w = (1,0)`, `u = (0,3)`, slope `1/2`) -/
+theorem maf_planar_flow_instance :
+    (mafFlowBij defaultTransformer 2 (fun _ => (MasksPf.mafExample, [])) 3 true).Lawful (Vec 2) (Vec 2) ∧
+    (planarFlowBij 2 (1 / 2) (fun _ => (planarParams, [])) 2 true).Lawful (Vec 2) (Vec 2) :=
+  ⟨maf_flow_lawful _ defaultTransformer_lawful 2 (by norm_num) _ 3 true (fun _ _ => ⟨mafExample_wellShaped, rfl⟩)
+     (fun _ _ _ h2 => absurd rfl h2),
+   planar_flow_lawful 2 (by norm_num) (by norm_num) _ 2 true (fun _ _ => planarParams_ok) (fun _ _ _ h2 => absurd rfl h2)⟩
+
+/-- `InverterExact` is satisfiable: a 2-layer BNAF flow on `ℝ²` (`MasksPf.bnafExample` layers, the strictly increasing
+bijective activation `z ↦ z + z`, an exact inverter) is lawful in both orientations, and its forward direction is
+lawful with NO assumption on the inverter -/
+theorem bnaf_flow_instance (invert : Bool)
+    (anyInverter : (List ℝ → List ℝ → List ℝ) → List ℝ → List ℝ → List ℝ) :
+    (bnafFlowBij 2 (fun z => z + z) (choiceInverter 2) (fun _ => (bnafNet, [])) 2 invert).Lawful (Vec 2) (Vec 2) ∧
+    FwdLawful (bnafFlowBij 2 (fun z => z + z) anyInverter (fun _ => (bnafNet, [])) 2 false) (Vec 2) := by
+  have hact : StrictMono (fun z : ℝ => z + z) := fun a b h => by simp only; linarith
+  exact ⟨bnaf_flow_lawful 2 1 1 _ hact _ _ 2 invert (fun _ _ => ⟨NetLawful.bnafExample_ok, bnafNet_exact⟩)
+      (fun _ _ _ h2 => absurd rfl h2),
+    bnaf_flow_forward_lawful 2 1 1 _ hact anyInverter _ 2 (fun _ _ => NetLawful.bnafExample_ok)
+      (fun _ _ _ h2 => absurd rfl h2)⟩
+
+end PremadeFlows
+/-! ## ===== END premade flows ===== -/
 
 end C01
